@@ -115,6 +115,31 @@ func famCheck(o *Out, r R, tier string) {
 		emit("byte-adjacent", base, []string{"ab" + c})
 		emit("byte-adjacent", base, []string{"ab," + c + "x-foo" + c})
 	}
+	// the budget of empty elements spent in ONE line next to every allowed name, for every spelling of an empty element
+	for _, names := range [][]string{{"x-foo"}, {"x-bar", "x-baz", "x-foo"}, {"a", "bb", "ccc", "dddd"}, {"content-type", "x-requested-with"}} {
+		for _, emptyEl := range []string{"", " ", "\t", "  ", " \t", "\t\t"} {
+			for k := 10; k <= 18; k++ {
+				padded := make([]string, len(names))
+				for i, nm := range names {
+					padded[i] = " " + nm + "\t"
+				}
+				all := strings.Join(padded, ",")
+				fill := strings.Repeat(","+emptyEl, k)
+				emit("empties-one-line", names, []string{all + fill})
+				emit("empties-one-line", names, []string{strings.TrimPrefix(fill, ",") + "," + all})
+				emit("empties-one-line", names, []string{padded[0] + fill + "," + strings.Join(padded[1:], ",")})
+			}
+		}
+	}
+	// name-less lines between lines with names (the position of the last name seen must survive them)
+	for _, gap := range []string{"", ",", " ", "\t,", ",,", " , "} {
+		base3 := []string{"x-bar", "x-baz", "x-foo"}
+		emit("nameless-line", base3, []string{"x-foo", gap, "x-bar"})
+		emit("nameless-line", base3, []string{"x-foo", gap, "x-foo"})
+		emit("nameless-line", base3, []string{"x-bar,x-foo", gap, "x-baz"})
+		emit("nameless-line", base3, []string{"x-bar", gap, "x-baz", gap, "x-foo"})
+		emit("nameless-line", base3, []string{"x-baz", gap, gap, "x-bar,x-baz"})
+	}
 	// larger sets: every ordered pair of allowed names (any distance apart in the sorted set), on one line and on two
 	for _, sz := range []int{10, 18, 33} {
 		set := make([]string, sz)
